@@ -6,6 +6,7 @@ import (
 	"fmt"
 	"os"
 	"path/filepath"
+	"strings"
 	"time"
 
 	"gopkg.in/yaml.v3"
@@ -19,7 +20,7 @@ import (
 func init() {
 	core.Register(&core.Simple{
 		Id: "C17", Lvl: "exploration", Quick: 320, Thorough: 6000, PerBatch: 80, Width: 40, Timeout: 1500,
-		RuleText: "each case: an administrator disconnects a target at a random IPv4 address with option none / temporary / permanent ban (or the case injects a ban entry whose expiry lies 2 s .. 24 h in the past or 1 min .. 24 h in the future); oracles: reply, target connection closed, every other client receives a user-left notice, ban entry in memory and in Banlist.yaml with expiry bracketed by the harness clock readings + 30 min (no slack), then reconnect attempts from the same address (other port), near-miss addresses (a.b.c.d0, 1a.b.c.d, neighbour host) and an unrelated address, before and after a restart on the same ban file: a banned address must get handshake reply + one ban notice + close with its login transaction unprocessed, all others must log in. distinct = (ban option or injected expiry class, restart phase, address class); non-trivial = every case",
+		RuleText: "each case: an administrator disconnects a target at a random IPv4 address with option none / temporary / permanent ban (optionally after an earlier expired or temporary entry for the same address; or the case injects a ban entry whose expiry lies 2 s .. 24 h in the past or 1 min .. 24 h in the future); oracles: reply, target connection closed, every other client receives a user-left notice, ban entry in memory and in Banlist.yaml with expiry bracketed by the harness clock readings + 30 min (no slack), then reconnect attempts from the same address (other port), near-miss addresses (a.b.c.d0, 1a.b.c.d, neighbour host) and an unrelated address, before and after a restart on the same ban file: a banned address must get handshake reply + one ban notice + close with its login transaction unprocessed, all others must log in. distinct = (ban option or injected expiry class, restart phase, address class); non-trivial = every case",
 		Case: runCase,
 	})
 }
@@ -139,7 +140,18 @@ func runCase(c *core.Case) {
 		c.Unsure("login: %v", err)
 		return
 	}
-	mode := core.Pick(r, []string{"kick", "kick-temp", "kick-temp", "kick-perm", "kick-perm", "inject-past", "inject-future"})
+	mode := core.Pick(r, []string{"kick", "kick-temp", "kick-temp", "kick-perm", "kick-perm", "inject-past", "inject-future", "kick-temp", "kick-perm"})
+	// an earlier entry for the same address may already be on the list: an expired temporary ban, or a temporary ban
+	// that is now upgraded
+	prior := ""
+	var priorUntil time.Time
+	if strings.HasPrefix(mode, "kick-") && r.Chance(1, 2) {
+		prior = core.Pick(r, []string{"expired", "expired", "temp"})
+		priorUntil = time.Now().Add(-time.Duration(1+r.Intn(300)) * time.Minute)
+		if prior == "temp" {
+			priorUntil = time.Now().Add(time.Duration(1+r.Intn(20)) * time.Minute)
+		}
+	}
 	banned := false
 	desc := mode
 	banFile := filepath.Join(srv.ConfigDir, "Banlist.yaml")
@@ -149,6 +161,10 @@ func runCase(c *core.Case) {
 		if err != nil {
 			c.Unsure("login: %v", err)
 			return
+		}
+		if prior != "" {
+			// recorded once the target is connected (an active entry would otherwise keep it out)
+			srv.S.BanList.Add(ip, &priorUntil)
 		}
 		ul, _ := adm.Call(300)
 		us, _ := refclient.UserList(ul)
@@ -244,7 +260,7 @@ func runCase(c *core.Case) {
 	if c.Failed() {
 		return
 	}
-	c.Describe(mode+"/"+desc, map[string]any{"mode": mode, "detail": desc, "address": ip, "banned_expected": banned})
+	c.Describe(mode+"/"+desc+"/prior="+prior, map[string]any{"mode": mode, "detail": desc, "address": ip, "banned_expected": banned, "earlier_entry_for_the_address": prior})
 
 	same := attempt{fmt.Sprintf("%s:%d", ip, 1024+r.Intn(60000)), banned, "same-address-other-port"}
 	attempts := append([]attempt{same}, near...)
